@@ -246,3 +246,38 @@ func VerifC17_ConvergesWhenPartitionCoversAll() {
 	verifrt.Assert(nw == s.R && old == 0, "C17.convergence.fixedPointOnlyWhenFullyNew")
 	_ = v1.EventTypeNormal
 }
+
+// VerifC17_RolloutRollingCountsTheNewReplicaSet: rolloutRolling as a whole, on the sync that has just created the new
+// ReplicaSet (it is then not yet in the lister snapshot handed to rolloutRolling) as well as on later syncs: the pods
+// of the new ReplicaSet count against replicas + maxSurge whichever list they came from, so a scale-up of the new
+// ReplicaSet keeps the total within replicas + maxSurge and within the partition.
+func VerifC17_RolloutRollingCountsTheNewReplicaSet() {
+	s := c17Setup()
+	s.assumeInvariant()
+	nw := int(*s.newRS.Spec.Replicas)
+	justCreated := verifrt.Bool("new.justCreated")
+	rsList := append([]*apps.ReplicaSet{}, s.oldRSs...)
+	if !justCreated {
+		rsList = append(rsList, s.newRS)
+	}
+	verifrt.Stub("(*github.com/openkruise/rollouts/pkg/controller/deployment.DeploymentController).getAllReplicaSetsAndSyncRevision",
+		func(dc *DeploymentController, ctx context.Context, d *apps.Deployment, rsList []*apps.ReplicaSet, createIfNotExisted bool) (*apps.ReplicaSet, []*apps.ReplicaSet, error) {
+			return s.newRS, s.oldRSs, nil
+		})
+	verifrt.Stub("(*github.com/openkruise/rollouts/pkg/controller/deployment.DeploymentController).syncRolloutStatus",
+		func(dc *DeploymentController, ctx context.Context, allRSs []*apps.ReplicaSet, newRS *apps.ReplicaSet, d *apps.Deployment) error {
+			return nil
+		})
+	err := s.dc.rolloutRolling(context.TODO(), s.d, rsList)
+	verifrt.Assert(err == nil, "C17.rolling.noerror")
+	nw2 := s.replicasAfter(s.newRS)
+	verifrt.Assert(nw2 <= c17Max(nw, s.limit), "C17.rolling.newNeverBeyondPartition")
+	if nw2 > nw {
+		verifrt.Cover("scaled-up")
+		verifrt.Assert(s.oldSum()+nw2 <= s.R+s.surge, "C17.rolling.scaleUpWithinMaxSurge")
+		for _, rs := range s.oldRSs {
+			_, touched := s.writes[rs.Name]
+			verifrt.Assert(!touched, "C17.rolling.oldUntouchedWhenNewScaledUp")
+		}
+	}
+}
